@@ -5,7 +5,7 @@ cd "$(dirname "$0")/.."
 what=$1; shards=${2:-4}; pat=${3:-*}
 export VERIF_JOBS=${VERIF_JOBS:-4}
 if [ "$what" = seeds ]; then
-  ls -d seeded/$pat/ | xargs -n1 basename | xargs -P "$shards" -I{} bash -c 's={}; p=${s%-*}; res=$(TIER=${TIER:-quick} tools/try_patch.sh seeded/$s/patch.diff $p 2>&1 | grep -E "^C[0-9]+ \[|PATCH DOES NOT" | awk '"'"'{ if ($0 ~ /PATCH/) printf "NOAPPLY "; else {split($5,a,"="); split($8,e,"="); if (a[2]>0) printf "%s ", $1; else if (e[2]>0) printf "%s(errors) ", $1}}'"'"'); echo "$s: ${res:-MISSED}"' | sort
+  ls -d seeded/$pat/ | xargs -n1 basename | xargs -P "$shards" -I{} bash -c 's={}; p=${s%-*}; res=$(TIER=${TIER:-quick} tools/try_patch.sh seeded/$s/patch.diff $p 2>&1 | grep -E "^C[0-9]+ \[|PATCH DOES NOT" | awk '"'"'{ if ($0 ~ /PATCH/) printf "NOAPPLY "; else {split($5,a,"="); split($8,e,"="); if (a[2]>0) printf "%s ", $1; else if (e[2]>0) printf "%s(errors) ", $1}}'"'"'); echo "$s: ${res:-MISSED}"' | tee /dev/shm/par_matrix.progress | sort
 else
-  ls -d refactor_twins/$pat/ | xargs -n1 basename | xargs -P "$shards" -I{} tools/twin_matrix.sh {} | sort
+  ls -d refactor_twins/$pat/ | xargs -n1 basename | xargs -P "$shards" -I{} tools/twin_matrix.sh {} | tee /dev/shm/par_matrix.progress | sort
 fi
